@@ -228,6 +228,7 @@ func runC06(ctx *Ctx, idx int) {
 		}
 	}
 	sampled := false
+	var prevLegacy *lookupEnv
 	for _, lv := range legacyVariants() {
 		ctx.Beat()
 		var stream []byte
@@ -314,7 +315,17 @@ func runC06(ctx *Ctx, idx int) {
 				}
 			}
 		}
+		// the instance loaded from the previous layout is still alive: it must
+		// answer as before now that another stream has been converted
+		if prevLegacy != nil {
+			prevLegacy.survivorCheck()
+		}
+		vb := ctx.nviol
 		legacyOracle(ctx, "C06", lc, lv.Name, o, ld, fresh, qs, 1)
+		prevLegacy = nil
+		if ctx.nviol == vb {
+			prevLegacy = &lookupEnv{ctx: ctx, prop: "C06", lc: lc, opt: o, model: m, inst: "survivor(legacy:" + lv.Name + ")", st: ld}
+		}
 		if !sampled && ctx.WantSample() && n >= 2 && n <= 8 {
 			sampled = true
 			d := lc.describe()
@@ -354,7 +365,7 @@ func init() {
 		Gates: func(tier string, m *Merged) []string {
 			need := []string{"fixtures", "3sec:nodes_gt_65535", "3sec:with_step_ge256", "3sec:with_inner_and_leaf_nodes", "0510:with_halfbyte_prefix", "0510:with_aligned_prefix",
 				"0510:with_short_nodes", "0510:with_257bit_nodes", "cases:key_ends_at_inner_node", "family:directed:empty", "family:directed:single-1", "allpref:exact_and_scans",
-				"compared_with_source_trie", "keycnt_checked", "cases:with_dropped_keys", "valkind:none"}
+				"compared_with_source_trie", "keycnt_checked", "survivor_rechecks", "cases:with_dropped_keys", "valkind:none"}
 			for _, lv := range legacyVariants() {
 				need = append(need, "streams:"+lv.Name)
 			}
